@@ -449,6 +449,161 @@ theorem options_forwarded {α : Type} (kw : List (String × α)) (k : String) (v
   · have := List.mem_filter.mp hkv
     exact ⟨this.1, by simpa using this.2⟩
 
+/-! ## which boxes are written with world labels: `_confirm_axis_aligned` / `is_affine_st` -/
+
+/-- **axis_aligned_iff** — a GeoBox is treated as axis-aligned (written with world labels, `coordinates`
+allowed) exactly when both off-diagonal terms are below the tolerance in absolute value — for **every**
+sign combination and size of the pixel scales `a`, `e` and every origin: mirrored (`a < 0`), south-up
+(`e > 0`), both, degenerate — and symmetric in the signs of `b`, `d`. -/
+theorem axis_aligned_iff (A : Aff) :
+    (isAffineST A = true ↔ rabs A.b < tolST ∧ rabs A.d < tolST) ∧
+    (∀ a' c' e' f' : Rat, isAffineST ⟨a', A.b, c', A.d, e', f'⟩ = isAffineST A) ∧
+    isAffineST ⟨A.a, -A.b, A.c, -A.d, A.e, A.f⟩ = isAffineST A := by
+  refine ⟨by simp [isAffineST], fun _ _ _ _ => rfl, ?_⟩
+  have hneg : ∀ x : Rat, rabs (-x) = rabs x := by
+    intro x
+    unfold rabs
+    rcases lt_trichotomy x 0 with h | h | h
+    · simp [h, not_lt.mpr (le_of_lt (neg_pos.mpr h) : (0 : Rat) ≤ -x)]
+    · subst h; simp
+    · simp [h, not_lt.mpr (le_of_lt h)]
+  simp [isAffineST, hneg]
+
+/-- **one_pixel_axis_next_to_strided** — `_extract_transform` with a one-element axis next to an axis of
+≥ 2 labels (any stride, reversed or not): the resolution of the long axis is read from its labels and does
+**not** depend on the fallback; only the one-element axis takes the fallback resolution (of its own axis),
+and both offsets put the pixel centres on the labels. -/
+theorem one_pixel_axis_next_to_strided (cx dx cy dy : Rat) (nx : Nat) (hnx : 2 ≤ nx) (xf : Option Aff)
+    (cc : Option CrsCoord) (gcp : Bool) (fb : Rat × Rat)
+    (hfb : fallbackRes (if gcp then none else xf) cc gcp = .ok (some fb)) :
+    extractTransform (ap cx dx nx) (ap cy dy 1) xf cc gcp =
+      .ok (some (composeP2W (if gcp then none else xf)
+        (Aff.translation (cx - (1 / 2) * dx) (cy - (1 / 2) * fb.2) * Aff.scale dx fb.2))) ∧
+    extractTransform (ap cy dy 1) (ap cx dx nx) xf cc gcp =
+      .ok (some (composeP2W (if gcp then none else xf)
+        (Aff.translation (cy - (1 / 2) * fb.1) (cx - (1 / 2) * dx) * Aff.scale fb.1 dx))) := by
+  have h1 := extractTransform_ap cx dx cy dy nx 1 (by omega) (le_refl 1) xf cc gcp fb (Or.inr hfb)
+  have h2 := extractTransform_ap cy dy cx dx 1 nx (le_refl 1) (by omega) xf cc gcp fb (Or.inr hfb)
+  have r1 : resOf nx dx fb.1 = dx := by simp [resOf, hnx]
+  have r2 : resOf nx dx fb.2 = dx := by simp [resOf, hnx]
+  have r3 : ∀ v, resOf 1 dy v = v := by intro v; simp [resOf]
+  rw [r1, r3] at h1
+  rw [r2, r3] at h2
+  exact ⟨h1, h2⟩
+
+/-! ## `assign_crs` -/
+
+/-- **roundtrip_assign_crs** — an array wrapped *without* a CRS coordinate (`crs_coord_name=None`) and then
+registered with `.odc.assign_crs(crs, name)` (any coordinate name, any rank) gives the GeoBox back — for
+rotated / sheared boxes of every shape ≥ 1×1 and for axis-aligned boxes of shape ≥ 2×2 (`assign_crs`
+writes no GeoTransform, so a one-pixel axis of world labels has nothing to fall back on: see
+`assign_crs_1px_lost`). -/
+theorem roundtrip_assign_crs (g : GeoBox) (c : Crs) (nt nb : Option Nat) (cn : String) (attrs : List String)
+    (a0 : XArr) (hcn : NameOk cn) (hcrs : g.crs = some c)
+    (halign : isAffineST g.A = true → g.A.b = 0 ∧ g.A.d = 0)
+    (hshape : (isAffineST g.A = false ∧ 1 ≤ g.ny ∧ 1 ≤ g.nx) ∨ (2 ≤ g.ny ∧ 2 ≤ g.nx))
+    (hw : wrapNoName (.lin g) nt nb attrs = .ok a0) :
+    recover (assignCrs a0 c cn) = .ok (.lin g) := by
+  obtain ⟨h1, h2, h3, h4, h5, h6⟩ := hcn
+  have e1 := beq_false_of_ne' h1
+  have e2 := beq_false_of_ne' h2
+  have e3 := beq_false_of_ne' h3
+  have e4 := beq_false_of_ne' h4
+  have e5 := beq_false_of_ne' h5
+  have e6 := beq_false_of_ne' h6
+  obtain ⟨ny, nx, A, crs⟩ := g
+  simp only at hcrs hshape halign
+  subst hcrs
+  have hny : 1 ≤ ny := by rcases hshape with h | h <;> omega
+  have hnx : 1 ≤ nx := by rcases hshape with h | h <;> omega
+  simp only [wrapNoName, wrap, xrCoords, srcDims, bind, Except.bind, pure, Except.pure, Except.map] at hw
+  obtain ⟨cid, geo⟩ := c
+  by_cases hst : isAffineST A = true
+  · obtain ⟨hb, hd⟩ := halign hst
+    have h22 : 2 ≤ nx ∧ 2 ≤ ny := by
+      rcases hshape with h | h
+      · exact absurd hst (by simp [h.1])
+      · exact ⟨h.2, h.1⟩
+    cases geo
+    ·
+      rcases nt with _ | nt <;> rcases nb with _ | nb <;>
+      simp only [dimsOf, hst, if_true, if_false, Bool.false_eq_true, Except.ok.injEq] at hw <;>
+      subst hw <;>
+      (rw [recover_lin _ "y" "x" (A.c + A.a / 2) A.a (A.f + A.e / 2) A.e nx ny none none
+           (some ⟨cid, false⟩) (some ⟨cid, false⟩) ⟨some ⟨cid, false⟩, none, none⟩ (0, 0)
+           (by simp [assignCrs, spatialDims, guessDims, List.lookup, e1, e2, e3, e4, e5, e6])
+           (by simp [assignCrs, List.lookup, List.lookup_append, axisLabels_eq_ap, e1, e2, e3, e4, e5, e6])
+           (by simp [assignCrs, List.lookup, List.lookup_append, axisLabels_eq_ap, e1, e2, e3, e4, e5, e6])
+           (by simp [assignCrs, locateCrsCoords, List.lookup, List.lookup_append, e1, e2, e3, e4, e5, e6])
+           rfl hnx hny (Or.inl h22)]
+       obtain ⟨a', b, c', d, e', f'⟩ := A
+       simp only at hb hd
+       subst hb; subst hd
+       simp only [resOf, h22.1, h22.2, if_true, composeP2W]
+       congr 3
+       simp only [Aff.mul_def, Aff.mul, Aff.translation, Aff.scale]
+       ext <;> simp <;> ring)
+    ·
+      rcases nt with _ | nt <;> rcases nb with _ | nb <;>
+      simp only [dimsOf, hst, if_true, if_false, Bool.false_eq_true, Except.ok.injEq] at hw <;>
+      subst hw <;>
+      (rw [recover_lin _ "latitude" "longitude" (A.c + A.a / 2) A.a (A.f + A.e / 2) A.e nx ny none none
+           (some ⟨cid, true⟩) (some ⟨cid, true⟩) ⟨some ⟨cid, true⟩, none, none⟩ (0, 0)
+           (by simp [assignCrs, spatialDims, guessDims, List.lookup, e1, e2, e3, e4, e5, e6])
+           (by simp [assignCrs, List.lookup, List.lookup_append, axisLabels_eq_ap, e1, e2, e3, e4, e5, e6])
+           (by simp [assignCrs, List.lookup, List.lookup_append, axisLabels_eq_ap, e1, e2, e3, e4, e5, e6])
+           (by simp [assignCrs, locateCrsCoords, List.lookup, List.lookup_append, e1, e2, e3, e4, e5, e6])
+           rfl hnx hny (Or.inl h22)]
+       obtain ⟨a', b, c', d, e', f'⟩ := A
+       simp only at hb hd
+       subst hb; subst hd
+       simp only [resOf, h22.1, h22.2, if_true, composeP2W]
+       congr 3
+       simp only [Aff.mul_def, Aff.mul, Aff.translation, Aff.scale]
+       ext <;> simp <;> ring)
+  · have hst' : isAffineST A = false := by simpa using hst
+    cases geo
+    ·
+      rcases nt with _ | nt <;> rcases nb with _ | nb <;>
+      simp only [dimsOf, hst, if_true, if_false, Bool.false_eq_true, Except.ok.injEq] at hw <;>
+      subst hw <;>
+      (rw [recover_lin _ "y" "x" (1 / 2) 1 (1 / 2) 1 nx ny (some A) (some A) none none
+           ⟨some ⟨cid, false⟩, none, none⟩ (1, 1)
+           (by simp [assignCrs, spatialDims, guessDims, List.lookup, e1, e2, e3, e4, e5, e6])
+           (by simp [assignCrs, List.lookup, List.lookup_append, pixelLabels_eq_ap, e1, e2, e3, e4, e5, e6])
+           (by simp [assignCrs, List.lookup, List.lookup_append, pixelLabels_eq_ap, e1, e2, e3, e4, e5, e6])
+           (by simp [assignCrs, locateCrsCoords, List.lookup, List.lookup_append, e1, e2, e3, e4, e5, e6])
+           rfl hnx hny (Or.inr (by simp [fallbackRes]))]
+       simp only [resOf_same, composeP2W]
+       congr 3
+       obtain ⟨a', b, c', d, e', f'⟩ := A
+       simp only [Aff.mul_def, Aff.mul, Aff.translation, Aff.scale]
+       ext <;> simp)
+    ·
+      rcases nt with _ | nt <;> rcases nb with _ | nb <;>
+      simp only [dimsOf, hst, if_true, if_false, Bool.false_eq_true, Except.ok.injEq] at hw <;>
+      subst hw <;>
+      (rw [recover_lin _ "latitude" "longitude" (1 / 2) 1 (1 / 2) 1 nx ny (some A) (some A) none none
+           ⟨some ⟨cid, true⟩, none, none⟩ (1, 1)
+           (by simp [assignCrs, spatialDims, guessDims, List.lookup, e1, e2, e3, e4, e5, e6])
+           (by simp [assignCrs, List.lookup, List.lookup_append, pixelLabels_eq_ap, e1, e2, e3, e4, e5, e6])
+           (by simp [assignCrs, List.lookup, List.lookup_append, pixelLabels_eq_ap, e1, e2, e3, e4, e5, e6])
+           (by simp [assignCrs, locateCrsCoords, List.lookup, List.lookup_append, e1, e2, e3, e4, e5, e6])
+           rfl hnx hny (Or.inr (by simp [fallbackRes]))]
+       simp only [resOf_same, composeP2W]
+       congr 3
+       obtain ⟨a', b, c', d, e', f'⟩ := A
+       simp only [Aff.mul_def, Aff.mul, Aff.translation, Aff.scale]
+       ext <;> simp)
+
+/-- the excluded corner of `roundtrip_assign_crs`: an axis-aligned 1×5 box registered through `assign_crs`
+has no GeoTransform to fall back on — `.odc.geobox` is `None` (replayed on the real code by the harness:
+route `assign`, key `…|lost` allowed exactly here). -/
+theorem assign_crs_1px_lost :
+    ((wrapNoName (.lin ⟨1, 5, ⟨2, 0, 10, 0, -2, 20⟩, some ⟨4326, true⟩⟩) none none []).bind
+        (fun a => recover (assignCrs a ⟨4326, true⟩ "crs"))) = .ok .nothing := by
+  decide +kernel
+
 /-! ## GCP boxes -/
 
 /-- **roundtrip_gcp_points** — a GCP-registered array (identity pixel transform, CRS attached, any
